@@ -257,9 +257,10 @@ Spec == Init /\ [][Next]_vars
 Emit == /\ (Mode = "res" /\ (n = MaxOps \/ (n > 0 /\ DOMAIN ev = {}))) => PrintT(ToJson(hist))
         /\ (Mode = "ma" /\ n = 1) => PrintT(ToJson([ma |-> ma, out |-> MovAvg(ma.vals, ma.span, ma.w)]))
 
-(* ------------- what the design guarantees (checked by TLC on every state) *)
+(* ------------- what the design guarantees (checked by TLC on every initial Result: n = 0; the     *)
+(* Results reached by chains are themselves initial Results of the same run)                       *)
 (* where_fin on the current Result, for every argument of the model:                              *)
-FinDesign == Mode = "res" =>
+FinDesign == (Mode = "res" /\ n = 0) =>
   \A nn \in FinNs : \A lp \in FinLPs :
     LET alts == FinAlts(ev, nn, lp[1], lp[2]) IN
     /\ (nn <= 0 \/ lp[1] = <<>>) => Cardinality(alts) = 1                      \* the result is determined
@@ -274,7 +275,7 @@ FinDesign == Mode = "res" =>
          /\ (nn = 0 /\ lp[1] = <<>> => a = ev)                                  \* where_fin() is the identity
 (* raw_learners with pairing and x='index' compares equal-length complete runs: at every x every  *)
 (* level reports the same number of values (one per surviving pairing group)                       *)
-RawDesign == Mode = "res" =>
+RawDesign == (Mode = "res" /\ n = 0) =>
   \A r \in RawArgs : (r[1] = <<"index">> /\ r[3] # <<>>) =>
     LET out == RawOut(ev, r[1], r[2], r[3], r[4])
         cnt(l, x) == Cardinality({o \in out : o[1] = l /\ o[2] = x})
